@@ -137,6 +137,15 @@ fn main() {
             }
             registry!(m, id.as_str())
         }
+        "dbg-zip" => {
+            // trace the reads/seeks the zip reader issues through adlt's reader stack
+            let bytes = std::fs::read(&args[2]).unwrap();
+            println!("cursor: {:?}", zip::ZipArchive::new(std::io::Cursor::new(bytes.clone())).map(|z| z.len()));
+            let chain = adlt::utils::seekablechain::SeekableChain::new(vec![std::io::Cursor::new(bytes.clone())]);
+            println!("chain: {:?}", zip::ZipArchive::new(chain).map(|z| z.len()));
+            let chain = adlt::utils::seekablechain::SeekableChain::new(vec![std::io::Cursor::new(bytes)]);
+            println!("list_archive_contents: {:?}", adlt::utils::unzip::list_archive_contents(chain));
+        }
         "gen" => {
             // print the case of (id, seed, idx) as JSON
             let id = args[2].as_str();
